@@ -282,6 +282,28 @@ def run(tier, rep, ev):
                               f"{alone['deflater_left_mib']} MiB (Deflater) / {alone['inflater_left_mib']} MiB (Inflater) of 300 MiB after its objects are gone",
                               {"case": cases[i]["name"], "alone": alone})
                 results[i][j] = (origin, [e for e in events if e["e"] != "rss"], rawres)      # the steps are still validated
+    # isolate the delegated PPMd library: when a PPMd process fails or dies, does pyppmd ALONE survive the same members, streamed the same way?
+    for i, c in enumerate(cases):
+        if not any(f["id"] == FID["PPMd"] for f in c["filters"]):
+            continue
+        failed = [j for j, (origin, events, rawres) in enumerate(results[i]) if rawres.get("error") or rawres.get("died") or rawres.get("timeout")]
+        if not failed:
+            continue
+        env = dict(os.environ, PYTHONHASHSEED="0")
+        try:
+            r = subprocess.run([sys.executable, "-m", "harness.bigmem", "--pyppmd-alone", json.dumps(c["members"])], cwd=VERIF, env=env, capture_output=True,
+                               text=True, timeout=1800)
+            line = r.stdout.strip().splitlines()[-1] if r.stdout.strip() else ""
+            alone = json.loads(line)["pyppmd_alone"] if line.startswith("{") else f"process died (exit status {r.returncode})"
+        except subprocess.TimeoutExpired:
+            alone = "did not finish"
+        ev.cov.setdefault("pyppmd_alone", {})[c["name"]] = alone
+        if alone != "ok":
+            for j in failed:
+                origin, events, rawres = results[i][j]
+                rep.violation("delegated-codec:pyppmd", f"{c['name']} {origin['phase']}: {rawres.get('error')}; pyppmd alone on the same members: {alone}",
+                              {"case": c["name"], "alone": alone})
+            results[i] = [x for j, x in enumerate(results[i]) if j not in failed]
     for i, c in enumerate(cases):
         for (origin, events, rawres) in results[i]:
             desc = {k: v for k, v in origin.items() if k not in ("wd", "members")}
